@@ -325,3 +325,58 @@ def analyse_dates(root, dates, jobs=None):
     ctx = mp.get_context("fork")
     with ctx.Pool(jobs) as pool:
         return dict(pool.imap_unordered(_work, dates, chunksize=1))
+
+
+# ---------------------------------------------------------------------- generic parallel map over dates
+_FN = None
+
+
+def _call(item):
+    return item, _FN(_S, item)
+
+
+def parallel_map(root, fn, items, jobs=None, chunksize=8):
+    """{item: fn(session, item)} over forked workers that inherit the session (fn must be a module-level function
+    returning something picklable)"""
+    global _FN
+    s = get_session(root)
+    s.repo.rules, s.helper_quals, s.repo.agg_specs  # noqa: B018
+    _FN = fn
+    items = list(items)
+    jobs = jobs or min(16, os.cpu_count() or 1, max(1, len(items)))
+    if jobs <= 1 or len(items) <= 2:
+        return dict(_call(i) for i in items)
+    ctx = mp.get_context("fork")
+    with ctx.Pool(jobs) as pool:
+        return dict(pool.imap_unordered(_call, items, chunksize=chunksize))
+
+
+def env_fingerprint(s, d):
+    """digest of everything the analyses depend on at date d except the date stamp itself:
+    parameter environment (structure and values) and the set of active implementations"""
+    import hashlib
+
+    import numpy
+
+    params, problems, _ = s.em.params(d)
+    h = hashlib.sha1()
+
+    def feed(x, depth=0):
+        if isinstance(x, dict):
+            for k in sorted(x, key=repr):
+                if k == "datum" and depth == 1:
+                    continue
+                h.update(repr(k).encode())
+                feed(x[k], depth + 1)
+        elif isinstance(x, numpy.ndarray):
+            h.update(x.tobytes())
+        else:
+            h.update(repr(x).encode())
+
+    feed(params)
+    h.update(repr(sorted(problems)).encode())
+    act = sorted(r.qual for r in s.repo.rules if r.start is not None and ((not r.decorated) or r.active(d)))
+    h.update(repr(act).encode())
+    # keep the per-date caches of the worker small
+    s.em._cache.pop(d, None)
+    return h.hexdigest()
